@@ -16,6 +16,9 @@ import (
 	"github.com/buildbarn/bb-storage/pkg/blobstore/configuration"
 	"github.com/buildbarn/bb-storage/pkg/blobstore/readfallback"
 	pb_blobstore "github.com/buildbarn/bb-storage/pkg/proto/configuration/blobstore"
+	pb_digest "github.com/buildbarn/bb-storage/pkg/proto/configuration/digest"
+	pb_eviction "github.com/buildbarn/bb-storage/pkg/proto/configuration/eviction"
+	"google.golang.org/protobuf/types/known/durationpb"
 	"github.com/buildbarn/bb-storage/pkg/blobstore/replication"
 	"github.com/buildbarn/bb-storage/pkg/blobstore/slicing"
 	"github.com/buildbarn/bb-storage/pkg/clock"
@@ -621,6 +624,108 @@ func c17ExistenceCache(c *sim.RunCtx) {
 	c.Nontrivial = true
 }
 
+// (d) an existence cache in front of a composite whose two sides key
+// differently (an instance-agnostic primary and an instance-aware secondary
+// behind read_fallback), all assembled by NewBlobAccessFromConfiguration: the
+// cache must be keyed by the combined format, or presence seen under one
+// instance name hides absence under another. The leaves only gain objects, so
+// no cached answer can go stale and FindMissing must be exact.
+func c17ExistenceCacheOverComposite(c *sim.RunCtx) {
+	t := c.T.Plan
+	base := drawSimpleObjs(t, 2+t.Choose(3), "")
+	insts := []string{"", "a", "x"}
+	type eobj struct {
+		Data []byte
+		D    digest.Digest
+	}
+	var objs []eobj
+	for i := range base {
+		data := base[i].Data
+		if len(data) == 0 {
+			data = []byte{0xE1, byte(i)}
+		}
+		for _, in := range insts {
+			objs = append(objs, eobj{data, RefDigest(in, remoteexecution.DigestFunction_SHA256, data)})
+		}
+	}
+	type eop struct {
+		Kind int // 0 find 1 put into primary 2 put into secondary
+		Set  []int
+	}
+	var ops []eop
+	for i, n := 0, 5+t.Choose(14); i < n; i++ {
+		o := eop{Kind: t.Pick(6, 1, 2)}
+		for j, k := 0, 1+t.Choose(3); j < k; j++ {
+			o.Set = append(o.Set, t.Choose(len(objs)))
+		}
+		ops = append(ops, o)
+	}
+	swap := t.Chance(1, 2) // which side is instance-aware
+	desc := fmt.Sprintf("existence cache over read_fallback: objects=%d ops=%d instanceAwarePrimary=%v", len(objs), len(ops), swap)
+	c.Sample["case"] = desc
+	c.Note("case %s ops=%v", desc, ops)
+	c.Sim(sim.SimOpts{MaxSteps: 100000, DeadlockClass: "deadlock"}, func(s *rt.Sched) {
+		kfP, kfS := digest.KeyWithoutInstance, digest.KeyWithInstance
+		if swap {
+			kfP, kfS = kfS, kfP
+		}
+		P := newModelStore(c, "primary", kfP)
+		S := newModelStore(c, "secondary", kfS)
+		clk := sim.NewClock(s)
+		// (the CAS creator builds the existence cache's backend itself, so the
+		// leaves are declared as labels and referenced by {label: ...})
+		ba, _, restore := buildComposite(c, s, clk, labelled(&pb_blobstore.BlobAccessConfiguration{Backend: &pb_blobstore.BlobAccessConfiguration_ExistenceCaching{ExistenceCaching: &pb_blobstore.ExistenceCachingBlobAccessConfiguration{
+			Backend: &pb_blobstore.BlobAccessConfiguration{Backend: &pb_blobstore.BlobAccessConfiguration_ReadFallback{ReadFallback: &pb_blobstore.ReadFallbackBlobAccessConfiguration{
+				Primary: labelConfig("P"), Secondary: labelConfig("S"), Replicator: replicatorConfig(rsNoop, 1)}}},
+			ExistenceCache: &pb_digest.ExistenceCacheConfiguration{CacheSize: 64, CacheDuration: durationpb.New(1000 * time.Second), CacheReplacementPolicy: pb_eviction.CacheReplacementPolicy_LEAST_RECENTLY_USED},
+		}}}, "P", "S"), map[string]configuration.BlobAccessInfo{"P": {BlobAccess: P, DigestKeyFormat: kfP}, "S": {BlobAccess: S, DigestKeyFormat: kfS}})
+		defer restore()
+		ctx := context.Background()
+		for _, o := range ops {
+			if c.Failed() {
+				return
+			}
+			switch o.Kind {
+			case 1:
+				for _, x := range o.Set {
+					P.Objs[P.key(objs[x].D)] = objs[x].Data
+				}
+			case 2:
+				for _, x := range o.Set {
+					S.Objs[S.key(objs[x].D)] = objs[x].Data
+				}
+			default:
+				sb := digest.NewSetBuilder(len(o.Set))
+				for _, x := range o.Set {
+					sb.Add(objs[x].D)
+				}
+				missing, err := ba.FindMissing(ctx, sb.Build())
+				if err != nil {
+					c.Fail("spurious-error", "FindMissing failed: %v [%s]", err, desc)
+					return
+				}
+				miss := map[digest.Digest]bool{}
+				for _, d := range missing.Items() {
+					miss[d] = true
+				}
+				for _, x := range o.Set {
+					held := P.Has(objs[x].D) || S.Has(objs[x].D)
+					if miss[objs[x].D] && held {
+						c.Fail("present-reported-missing", "FindMissing reports %s missing although a backend holds it [%s]", objs[x].D, desc)
+						return
+					}
+					if !miss[objs[x].D] && !held {
+						c.Fail("stale-existence-cache", "FindMissing reports %s present although neither backend holds it under this key (the backends only gained objects, so no backend ever reported it present) [%s]", objs[x].D, desc)
+						return
+					}
+				}
+				c.Count("probe_existence_cache_over_composite_findmissing", 1)
+			}
+		}
+	})
+	c.Nontrivial = true
+}
+
 var _ = sort.Strings
 var _ = strings.Contains
 
@@ -633,6 +738,7 @@ func init() {
 			{Name: "read-fallback", Weight: 3, Fn: c17Composite(true)},
 			{Name: "replicator-decorators", Weight: 4, Fn: c17Replicators},
 			{Name: "existence-cache", Weight: 3, Fn: c17ExistenceCache},
+			{Name: "existence-cache-over-composite", Weight: 1, Fn: c17ExistenceCacheOverComposite},
 		},
 		Components: map[string][]string{
 			"real": {"pkg/blobstore/configuration new_blob_access.go / new_blob_replicator.go / creators (W-config runs: the composite is assembled by the unmodified NewBlobAccessFromConfiguration over model leaves)", "pkg/blobstore/readcaching", "pkg/blobstore/readfallback", "pkg/blobstore/replication: deduplicating, queued, concurrency-limiting, local, noop", "pkg/blobstore existence caching blob access", "pkg/digest.ExistenceCache", "pkg/eviction (LRU, FIFO, RR sets)", "golang.org/x/sync/semaphore (rewritten onto verifsimrt)"},
